@@ -15,9 +15,11 @@ _TC, _TE = "TornadoModel.C34.Cond.", "TornadoModel.C34.Event."
 THEOREMS = [_TC + n for n in (
     "inv_after", "popN_spec", "liveQueue_is_arrival_order", "notify_wakes_min", "notifyAll_wakes_all", "notify_sets_true",
     "settle_evs_false", "timeout_false_not_counted", "settled_final", "cond_gc_purges",
+    "refines_spec", "refines_spec_state",
 )] + [_TE + n for n in (
     "inv_after", "no_residue", "pending_registered", "set_means_nobody_waits", "wait_when_set", "set_completes",
     "deadline_times_out", "settled_final", "timeout_only_by_own_deadline", "event_wait_iff",
+    "refines_spec", "refines_spec_state",
 )]
 TRUSTED = [
     "asyncio event loop ordering as abstracted by the model's drain (see C33); gen.with_timeout / chain_future as "
@@ -40,7 +42,10 @@ CLAUSES = {
         "Event.event_wait_iff (= wait_when_set + set_completes + set_means_nobody_waits + deadline_times_out + "
         "timeout_only_by_own_deadline) + Event.settled_final",
     "finished waits leave no residue": "Event.no_residue + Event.pending_registered (Condition: Cond.cond_gc_purges)",
-    "checked against a sequential reference model": "tie: Spec.Cond / Spec.Event are the oracle on every case",
+    "checked against a sequential reference model":
+        "Cond.refines_spec + Event.refines_spec (output-trace equality Model = Spec, results and resolutions, for every "
+        "history) + Cond.refines_spec_state + Event.refines_spec_state; Spec.Cond / Spec.Event are also the oracle "
+        "applied to the implementation on every case",
 }
 PARALLEL = True
 CASE_TIMEOUT = 120
